@@ -121,6 +121,10 @@ def argument(kind, ps):
         return (p for p in ps)
     if kind == "tuple":
         return tuple(ps)
+    if kind == "iterpairs":
+        return [iter(p) for p in ps]            # every pair a one-shot iterator (dict.update unpacks, never indexes)
+    if kind == "listpairs":
+        return [list(p) for p in ps]
     return ps
 
 
